@@ -124,8 +124,8 @@ func TestVerif_C16_h2fields(t *testing.T) {
 	s := verifh.New(t, "C16", "h2fields",
 		"http.Request values: methods (standard, extension, empty, invalid, CONNECT), URLs (ports, IPv6, escapes, '*', opaque, no host), Host override valid/invalid, 0..60 header keys (canonical/non-canonical spellings of the same name, user-agent/cookie/connection-specific/bookkeeping names, invalid names, 0..3 values, bad values), header order lists (subset/superset/other case/duplicated/full) and pseudo-header order lists (permutations, subsets, supersets, duplicates, other case) in most cases, body unknown/known/NoBody, gzip on/off; non-trivial = a field list was produced")
 	need := map[string]int{}
-	c16LaneH2(t, s, "order", verifh.N(2500, 80000), need)
-	c16LaneH2(t, s, "plain", verifh.N(800, 30000), need)
+	c16LaneH2(t, s, "order", verifh.N(4000, 80000), need)
+	c16LaneH2(t, s, "plain", verifh.N(1500, 30000), need)
 	for _, b := range []string{"ok", "err:host", "err:header", "header-order", "pseudo-order"} {
 		if need[b] == 0 {
 			t.Errorf("lane did not reach bucket %q", b)
